@@ -5,6 +5,14 @@ World U: a real aiohttp.streams.StreamReader on a real BaseProtocol.  The
 transport, delivers nothing while the protocol has paused reading.  A consumer
 task issues read calls.  The reference model (ref_stream) is a byte FIFO with
 chunk-end offsets, eof and error.
+
+In "parked" scenarios the producer ops reach the stream the way they do in a
+connection: the network hands a whole segment (several ops) to
+BaseProtocol.data_received(), a parser feeds them one by one and, like
+HttpPayloadParser, parks the rest of the segment when the stream asked for a
+pause; BaseProtocol.resume_reading() replays the parked part through
+data_received(b"") - re-entering feed_data from inside the read that drained
+the buffer - before it decides whether to switch the transport back on.
 """
 from __future__ import annotations
 
@@ -21,18 +29,24 @@ RULE = (
     "Each run = seeded producer program (feed_data sizes 0..2*limit+1, begin/end chunk, feed_eof, "
     "set_exception; delivery suspended while the protocol paused reading) x consumer program "
     "(read(n), read(), readany, readline, readuntil, readexactly, readchunk, iter_*, read_nowait, "
-    "unread_data) x limits x cancellation of blocked reads, interleaved by seeded virtual delays. "
+    "unread_data) x limits x cancellation of blocked reads, interleaved by seeded virtual delays; "
+    "in ~15 % of runs the ops arrive as multi-op segments through BaseProtocol.data_received() and a "
+    "parser that parks the rest of a segment on pause and replays it inside resume_reading(). "
     "Non-trivial: the reader blocked at least once AND the protocol was paused at least once; "
     "distinct = distinct interleaving signature (sequence of executed handle kinds + op kinds)."
 )
 COMPONENTS = {
     "real": ["aiohttp.streams.StreamReader", "aiohttp.base_protocol.BaseProtocol", "asyncio tasks/futures"],
-    "stub": ["transport (flag-only pause/resume)", "HTTP parser (records pause_reading)", "network (producer actor)"],
+    "stub": ["transport (flag-only pause/resume)", "HTTP parser (records pause_reading; in parked runs: feeds a segment op by op, "
+             "parks the remainder when paused, replays it on data_received(b''))", "network (producer actor)"],
 }
 ASSUMPTIONS = [
     "a transport delivers no data while reading is paused (asyncio selector transport contract)",
     "high/low water marks are those reported by StreamReader.get_read_buffer_limits()",
     "one consumer at a time (documented: concurrent reads raise RuntimeError)",
+    "parked runs: a parser honours a pause request between two ops of a segment, keeps the rest and continues "
+    "when data_received(b'') is called from BaseProtocol.resume_reading() (what HttpPayloadParser does with _chunk_tail)",
+    "unread_data() may lift the buffer over the high-water mark without a pause; the mark is judged again from the next arrival on",
     "a cancelled accumulating read (read(), readexactly, readuntil) may drop what it had collected; "
     "after such a cancel only order/no-duplication is judged",
 ]
@@ -113,8 +127,16 @@ def gen(rng, tier, index):
         cons.append([d, k, arg])
     ncancel = rng.choice([0, 0, 0, 1, 2])
     cancels = sorted(rng.randint(1, 120) for _ in range(ncancel))
-    return {"limit": limit, "producer": prod, "consumer": cons, "cancels": cancels,
-            "only_chunks": only_chunks, "total": total}
+    scn = {"limit": limit, "producer": prod, "consumer": cons, "cancels": cancels,
+           "only_chunks": only_chunks, "total": total}
+    # drawn last so that the other scenarios stay what they were
+    if rng.random() < 0.15:
+        # segments: an op flagged 1 is delivered in the same data_received() as the op before it
+        scn["parked"] = True
+        glue = rng.choice([0.4, 0.7, 0.9])
+        for i, o in enumerate(prod):
+            o.append(1 if i and rng.random() < glue else 0)
+    return scn
 
 
 def shrink(scn):
@@ -136,6 +158,17 @@ def shrink(scn):
                 yield cand
             if n // 2 <= 1:
                 break
+    if scn.get("parked"):
+        cand = dict(scn)
+        cand["producer"] = [list(o[:3]) for o in scn["producer"]]
+        del cand["parked"]
+        yield cand
+        for i, op in enumerate(scn["producer"]):
+            if len(op) > 3 and op[3]:
+                cand = dict(scn)
+                cand["producer"] = [list(o) for o in scn["producer"]]
+                cand["producer"][i][3] = 0
+                yield cand
     for key in ("producer", "consumer"):
         for i, op in enumerate(scn[key]):
             if op[0] > 0:
@@ -191,6 +224,61 @@ class _Parser:
 
     def feed_data(self, data):
         return (), False, b""
+
+
+class _ParkingParser:
+    """Feeds the ops of a segment one by one; when the stream asked for a pause it keeps
+    the rest (as HttpPayloadParser keeps _chunk_tail) until feed_data() is called again."""
+
+    def __init__(self, apply):
+        self.pauses = 0
+        self.parks = 0
+        self.replayed = 0
+        self.reparks = 0
+        self.paused = False
+        self.queue = []
+        self.apply = apply
+
+    def pause_reading(self):
+        self.pauses += 1
+        self.paused = True
+
+    def resume_reading(self):
+        self.paused = False
+
+    def feed_data(self, data):
+        q = self.queue
+        while q:
+            if self.paused:
+                self.paused = False
+                self.parks += 1
+                if not data:
+                    self.reparks += 1
+                break
+            op = q.pop(0)
+            if not data:
+                self.replayed += 1
+            self.apply(op)
+        return (), False, b""
+
+
+_PROTO_CLS = []
+
+
+def _segment_protocol():
+    """BaseProtocol leaves data_received() to its subclasses; this one does what they do:
+    hand the bytes to the parser."""
+    if not _PROTO_CLS:
+        from aiohttp.base_protocol import BaseProtocol
+
+        class SegmentProtocol(BaseProtocol):
+            __slots__ = ()
+
+            def data_received(self, data):
+                self._parser.feed_data(data)
+
+        _PROTO_CLS.append(SegmentProtocol)
+    return _PROTO_CLS[0]
 
 
 class StreamError(Exception):
@@ -255,7 +343,13 @@ def run(scn, ch, log=False):
     with World(ch, scn.get("seed", 0), log_events=log) as w:
         loop = w.loop
         tr = _Transport()
-        proto = BaseProtocol(loop, parser=_Parser())
+        parked_mode = bool(scn.get("parked"))
+        if parked_mode:
+            parser = _ParkingParser(lambda o: apply_op(o[1], o[2]))
+            proto = _segment_protocol()(loop, parser=parser)
+        else:
+            parser = None
+            proto = BaseProtocol(loop, parser=_Parser())
         proto.connection_made(tr)
         limit = scn["limit"]
         stream = StreamReader(proto, limit, loop=loop)
@@ -264,26 +358,23 @@ def run(scn, ch, log=False):
             "fed": 0, "consumed": 0, "eof": False, "exc": False, "ends": [], "lossy": False,
             "blocked": 0, "cur": None, "chunk_groups": [], "group": bytearray(), "crossed": False,
             "in_op": False, "last": b"", "done_ops": 0, "cur_op": "", "cands": None,
+            "unread_over": False,
         }
         probes = {"blocked": 0, "paused": 0, "cancel_fired": 0, "lossy": 0, "linetoolong": 0,
-                  "chunk_true": 0, "unread": 0, "exc_raised": 0}
+                  "chunk_true": 0, "unread": 0, "exc_raised": 0, "iter_ended": 0, "iter_boundary_marker": 0, "iter_chunks_from_boundary": 0,
+                  "segments": 0, "parked": 0, "replayed_in_resume": 0, "repaused_in_resume": 0}
         prod = [list(o) for o in scn["producer"]]
         state = {"pi": 0, "waiting": False}
 
         # ---------------- producer -----------------------------------------
-        def producer_step():
-            if state["pi"] >= len(prod):
-                return
-            if tr.paused and not m["eof"]:
-                state["waiting"] = True
-                return
-            d, op, arg = prod[state["pi"]]
-            state["pi"] += 1
+        def apply_op(op, arg):
             loop.note("prod", f"{op}:{arg}")
             try:
                 if op == "feed":
                     data = content[m["fed"]: m["fed"] + arg]
                     m["fed"] += len(data)
+                    if data:
+                        m["unread_over"] = False  # an arrival re-evaluates the high-water mark
                     stream.feed_data(data)
                 elif op == "begin":
                     stream.begin_http_chunk_receiving()
@@ -301,7 +392,31 @@ def run(scn, ch, log=False):
             except RuntimeError as e:
                 # begin_http_chunk_receiving after data was fed: documented refusal
                 loop.note("prod_refused", str(e)[:40])
-            check_flow("producer" if (op == "feed" and arg > 0) else "producer_nodata")
+
+        def producer_step():
+            if state["pi"] >= len(prod):
+                return
+            if tr.paused and not m["eof"]:
+                state["waiting"] = True
+                return
+            if parked_mode:
+                # one transport read: the op at pi and every following op glued to it
+                seg = [prod[state["pi"]]]
+                state["pi"] += 1
+                while state["pi"] < len(prod) and len(prod[state["pi"]]) > 3 and prod[state["pi"]][3]:
+                    seg.append(prod[state["pi"]])
+                    state["pi"] += 1
+                probes["segments"] += 1
+                fed0 = m["fed"]
+                parser.queue.extend(seg)
+                loop.note("segment", str(len(seg)))
+                proto.data_received(b"\x01" * len(seg))
+                check_flow("producer" if m["fed"] > fed0 else "producer_nodata")
+            else:
+                d, op, arg = prod[state["pi"]][:3]
+                state["pi"] += 1
+                apply_op(op, arg)
+                check_flow("producer" if (op == "feed" and arg > 0) else "producer_nodata")
             if state["pi"] < len(prod):
                 nd = prod[state["pi"]][0]
                 loop.sim_call_later(nd * 0.001, producer_step)
@@ -331,6 +446,13 @@ def run(scn, ch, log=False):
             if who == "producer" and buffered > high and not tr.paused and not m["eof"]:
                 violate("pause_on_high_water", f"not_paused_after_{who}",
                         f"buffered={buffered} > high={high} but reading not paused (after {who} step)")
+            # ... and it must still hold when a read has returned: what arrived during the read
+            # (data replayed by resume_reading) is judged like any other arrival
+            if who == "consumer" and buffered > high and not tr.paused and not m["eof"] and not m["unread_over"]:
+                violate("pause_on_high_water", f"not_paused_after_{who}",
+                        f"buffered={buffered} > high={high} but reading not paused after a read returned "
+                        f"(protocol says paused={proto._reading_paused}, replayed inside resume_reading="
+                        f"{parser.replayed if parser else 0})")
             if who == "consumer" and tr.paused and buffered < low and pending_ends <= 1 and not m["eof"]:
                 violate("resume_below_low_water", "still_paused",
                         f"buffered={buffered} < low={low}, pending chunk ends={pending_ends}, still paused")
@@ -452,6 +574,7 @@ def run(scn, ch, log=False):
                 if d and not m["lossy"]:
                     probes["unread"] += 1
                     stream.unread_data(d)
+                    m["unread_over"] = True
                     m["consumed"] -= len(d)
                     m["last"] = b""
                     m["crossed"] = True
@@ -462,6 +585,8 @@ def run(scn, ch, log=False):
                     n += 1
                     if n >= 3:
                         break
+                else:
+                    iter_ended(op)
             elif op == "iter_any":
                 n = 0
                 async for d in stream.iter_any():
@@ -469,6 +594,8 @@ def run(scn, ch, log=False):
                     n += 1
                     if n >= 3:
                         break
+                else:
+                    iter_ended(op)
             elif op == "iter_lines":
                 n = 0
                 try:
@@ -477,18 +604,35 @@ def run(scn, ch, log=False):
                         n += 1
                         if n >= 3:
                             break
+                    else:
+                        iter_ended(op)
                 except LineTooLong:
                     probes["linetoolong"] += 1
                     go_lossy()
             elif op == "iter_chunks":
                 n = 0
+                if m["crossed"] and not m["lossy"] and m["consumed"] in m["ends"]:
+                    probes["iter_chunks_from_boundary"] += 1  # another API stopped exactly on a chunk end
                 async for d, flag in stream.iter_chunks():
+                    if not d and flag:
+                        probes["iter_boundary_marker"] += 1
                     chunk_account(d, flag)
                     n += 1
                     if n >= 3:
                         break
+                else:
+                    iter_ended(op)
             if op not in ("readchunk", "iter_chunks"):
                 m["crossed"] = True
+
+        def iter_ended(op):
+            """the async iteration stopped by itself: that is the end-of-stream report"""
+            probes["iter_ended"] += 1
+            if viols or m["lossy"]:
+                return
+            if not (m["eof"] and m["consumed"] == m["fed"]):
+                violate("eof_after_all_data", f"early_end_{op}",
+                        f"async iteration ({op}) ended but eof={m['eof']} consumed={m['consumed']} fed={m['fed']}")
 
         def eof_check(d, op):
             if viols or m["lossy"]:
@@ -580,7 +724,7 @@ def run(scn, ch, log=False):
         # waiting for data that will never come (no EOF in the program) - legal -
         # unless the transport is paused with producer ops left (deadlock).
         if not viols and not ct.done():
-            remaining = len(prod) - state["pi"]
+            remaining = len(prod) - state["pi"] + (len(parser.queue) if parser else 0)
             if remaining > 0 and tr.paused:
                 buffered = m["fed"] - m["consumed"]
                 violate("progress", "stuck_paused",
@@ -591,6 +735,10 @@ def run(scn, ch, log=False):
             violate("loop_exception", f"{c['exc_type']}", f"exception reached the loop: {c}")
         probes["blocked"] = 1 if m["blocked"] else 0
         probes["paused"] = 1 if tr.pauses else 0
+        if parser is not None:
+            probes["parked"] = parser.parks
+            probes["replayed_in_resume"] = parser.replayed
+            probes["repaused_in_resume"] = parser.reparks
         st = w.stats()
         res = {
             "violations": viols, "nontrivial": bool(m["blocked"] and tr.pauses),
@@ -610,5 +758,6 @@ LEVEL_TEXT = (
 )
 LEVEL_NOTE = (
     "Trusted: the reference model in props/c08.py, asyncio's task/future semantics, and the assumption that a paused "
-    "transport delivers nothing. Bounds: <=14 producer ops, <=16 consumer ops, limits 1..64 and 65536."
+    "transport delivers nothing; in parked runs also the segment-parking parser stub. "
+    "Bounds: <=14 producer ops, <=16 consumer ops, limits 1..64 and 65536."
 )
